@@ -4,14 +4,10 @@ import importlib, json, os, sys
 sys.path.insert(0, "/verif")
 props = [json.loads(l) for l in open("/verif/properties.jsonl")]
 NA = {
- "C20": "array indexing: slice/index arithmetic over run-time shapes and chunks; no sound static bound in reach",
  "C21": "item assignment: index normalisation and block intersection are numeric over run-time values",
- "C23": "chunk normalisation/rechunk: sums and byte limits are arithmetic over run-time values",
- "C24": "structural array ops: chunk bookkeeping arithmetic over run-time shapes",
  "C27": "counting/set/search/histogram: numerical agreement with NumPy",
  "C31": "tensor products and decompositions: numerical linear algebra",
  "C32": "approximate percentiles: numeric merge; monotonicity is a value property",
- "C34": "creation routines: floating-point length/step arithmetic",
  "C41": "divisions truthfulness: compares index values with divisions (data-dependent)",
  "C42": "dataframe meta vs computed: needs pandas execution",
  "C44": "repartition: row order and counts are data-dependent",
